@@ -278,8 +278,59 @@ def run_scale(part, n):
         judge_decode(part, cname, comb, kind, text, n, n)
 
 
+def long_problem(cname):
+    """(h, w, problem) whose canonical body is longer than 256 characters."""
+    if cname in ("nurikabe", "sudoku", "nurimisaki"):
+        h = w = 20
+        return h, w, [[(1 + (x + y) % 9) if (x + 3 * y) % 4 else {"nurikabe": 0, "sudoku": 0, "nurimisaki": -1}[cname] for x in range(w)] for y in range(h)]
+    if cname == "slitherlink":
+        h = w = 20
+        return h, w, [[(x + y) % 4 if (x * 7 + y) % 3 else -1 for x in range(w)] for y in range(h)]
+    if cname == "masyu":
+        h = w = 30
+        return h, w, [[(x + 2 * y) % 3 for x in range(w)] for y in range(h)]
+    if cname == "yajilin":
+        h = w = 16
+        return h, w, [[["^1", "v0", "<2", "..", ">17", "??"][(x + 5 * y) % 6] for x in range(w)] for y in range(h)]
+    if cname in ("lits", "norinori", "rooms-lenient"):
+        h = w = 28
+        return h, w, [[(y, x)] for y in range(h) for x in range(w)]
+    if cname == "heyawake":
+        h = w = 18
+        rooms = [[(y, x)] for y in range(h) for x in range(w)]
+        return h, w, (rooms, [(-1 if (k % 5 == 0) else k % 3) for k in range(len(rooms))])
+    return None
+
+
+def run_long(part, cname):
+    from cspuz import problem_serializer as ps
+
+    comb, kind = get_codecs()[cname]
+    lp = long_problem(cname)
+    if lp is None:
+        return
+    h, w, prob = lp
+    try:
+        text = ps.serialize_problem(comb, prob, height=h, width=w)
+    except Exception as e:
+        part.violation("%s:long-problem-not-serializable-%s" % (cname, type(e).__name__), {"codec": cname, "height": h, "width": w, "text": "<long problem>"}, {"exception": repr(e)[:200]})
+        return
+    L = len(text)
+    part.maxi("long_body_length", L)
+    cuts = sorted(set([0, 1, 2, 127, 128, 129, 254, 255, 256, 257, 258, 259, 260, L - 3, L - 2, L - 1, L]) & set(range(0, L + 1)))
+    for cut in cuts:
+        judge_decode(part, cname, comb, kind, text[:cut], h, w)
+    for tail in ("z", "-", "+1", "/", "٣"):
+        judge_decode(part, cname, comb, kind, text + tail, h, w)
+        judge_decode(part, cname, comb, kind, text[:257] + tail, h, w)
+    part.add("long", (cname, L))
+
+
 def worker(shard, part):
     what = shard[0]
+    if what == "long":
+        run_long(part, shard[1])
+        return
     if what == "bodies":
         _, cname, h, w, lo, hi, first = shard
         run_bodies(part, cname, h, w, lo, hi, first)
@@ -311,6 +362,8 @@ def main(tier, seed, only=None):
         shards.append(("urls", cname))
     for n in (10, 20, 32, 40, 64):
         shards.append(("scale", n))
+    for cname in cs:
+        shards.append(("long", cname))
     if only:
         shards = [s for s in shards if s[0] == only or (len(s) > 1 and s[1] == only)]
     run = harness.Run(
@@ -319,7 +372,8 @@ def main(tier, seed, only=None):
         "superscript two).  Bodies: for each of %d codecs (9 puzzle codecs, lenient Rooms, 11 library combinator terms) ALL strings of length "
         "<= 3 under every declared (h, w) in {0..3}^2 and ALL strings of length 4 under %s%s.  URL level: 4 schemes x 3 hosts x 4 paths x 8 "
         "dimension spellings x puzzle names (right/alias/wrong) x body classes through the module decoders, deserialize_problem_as_url "
-        "(allow_failure off/on) and get_puzzle_info_from_url.  Scale family: one-room and striped n x n boards for n in 10,20,32,40,64.  "
+        "(allow_failure off/on) and get_puzzle_info_from_url.  Scale family: one-room and striped n x n boards for n in 10,20,32,40,64; for every puzzle codec a canonical body longer than 256 "
+        "characters (boards 16x16 .. 30x30) cut at 0,1,2,127..129,254..260 and at its end, and extended by garbage.  "
         "Non-trivial = distinct inputs that decoded to a problem (checked for dimensions and stable re-encoding)."
         % ("".join(ALPHABET), len(cs), "(h, w) in {1,2}^2" if tier == "quick" else "every (h, w)", "" if tier == "quick" else " and length 5 under (h, w) in {1,2}^2"),
     )
